@@ -79,10 +79,8 @@ theorem leaf_nonempty {hole : Option Nat} {t : Tree K V} (hok : TreeOk hole t)
     {leaf : Nat} {sh : Shallow K V} (hl : t.look leaf = some sh) (hne : leaf ≠ t.rootId) :
     0 < sh.keys.length := by
   have hm := (hok.occ (leaf, sh) (look_mem hl)).2.1
-  have h4 := hok.order4
-  unfold minOf at hm
-  simp only [hne, if_false] at hm
-  split at hm <;> omega
+  have h1 := hok.min_pos (hole := hole) hne sh.height
+  exact Nat.lt_of_lt_of_le h1 hm
 
 theorem shPairs_getElem? {sh : Shallow K V} {j : Nat} {p : K × V} (h : (shPairs sh)[j]? = some p) :
     sh.keys[j]? = some p.1 ∧ sh.vals[j]? = some p.2 := by
